@@ -17,6 +17,7 @@ CONSTANTS N,          \* commits 1..N
           BVals,      \* values of head b (0 = absent)
           TagAts,     \* commits a tag may point to
           Depths,     \* depths of the fetch under test from an empty client (0 = full)
+          Deepen,     \* depths of a deepening fetch of a client that was fetched with depth 2
           EmitAll
 
 VARIABLES scn, steps
@@ -29,12 +30,16 @@ Tags == {[kind |-> "none", at |-> 0]} \cup [kind : {"ann", "lw"}, at : TagAts]
 
 \* prior: px = 0 (empty client) | px > 0 with d1 \in {0,1} and local \in BOOLEAN
 Priors == {[px |-> 0, d1 |-> 0, local |-> FALSE]}
-          \cup {[px |-> x, d1 |-> d, local |-> l] : x \in 1..(N-1), d \in {0, 1}, l \in BOOLEAN}
+          \cup {[px |-> x, d1 |-> d, local |-> l] : x \in 1..(N-1), d \in {0, 1, 2}, l \in BOOLEAN}
 
 Scenarios ==
   {s \in [dag : Dags, b : BVals, tag : Tags, prior : Priors,
-          refspec : {"all", "one"}, tags : {"follow", "all", "none"}, depth : Depths] :
-     /\ (s.prior.px # 0 => s.depth = 0)                  \* depth only from an empty client
+          refspec : {"all", "one"}, tags : {"follow", "all", "none"}, depth : Depths \cup Deepen] :
+     \* a depth-limited fetch starts from an empty client, or deepens a client that is already
+     \* shallow with non-shallow commits (first fetch with depth 2, then depth \in Deepen)
+     /\ (s.prior.px = 0 => s.depth \in Depths)
+     /\ (s.prior.px # 0 /\ s.prior.d1 # 2 => s.depth = 0)
+     /\ (s.prior.px # 0 /\ s.prior.d1 = 2 => s.depth \in {0} \cup Deepen)
      /\ (s.prior.local => s.prior.d1 = 0)                \* local commits only on a full prior
      /\ s.b < N }
 
